@@ -25,9 +25,13 @@ Local Opaque BabyJub.modinv BabyJub.modsqrt BabyJub.Mul BabyJub.Affine BabyJub.P
    fails at once on a mismatch whereas conversion may first try to normalise. *)
 Ltac same :=
   cbv zeta;
-  lazymatch goal with
-  | |- ?a = ?b => first [ constr_eq a b | fail 1 "generated code and hand model differ" ]
-  end; reflexivity.
+  first [ lazymatch goal with |- ?a = ?b => constr_eq a b end; reflexivity
+        | (* the same code up to boolean spelling: `if !c {A} else {B}` for `if c {B} else {A}`,
+             an early `return false` for a conjunction, ... (the heavy functions are Opaque here,
+             so the conversion below stays cheap) *)
+          rewrite ?Bool.if_negb; cbv beta iota zeta delta [andb orb];
+          rewrite ?Bool.if_negb; timeout 20 reflexivity
+        | fail 1 "generated code and hand model differ" ].
 
 (* ---- package utils -------------------------------------------------------- *)
 
